@@ -763,6 +763,37 @@ CONDITIONS += [
     {"fn": "c17_h2_held_template_other", "quick": 40, "thorough": 60, "sel_only": True},
 ]
 
+# ---- the shared corpus: rendering twice with the same data gives the same output, the data is left as it was, and a
+# render of another member in between changes nothing ------------------------------------------------------------------------
+from harness import corpus as _corpus  # noqa: E402
+
+_CENV = _corpus.make_env()
+
+
+def _corpus_check(w2, w1, leaf, d):
+    t = _corpus.template(_CENV, w2, w1, leaf)
+    if t is None:
+        return None
+    first = _corpus.outcome(lambda: t.render(**_corpus.data(d)))
+    dd = _corpus.data(d)
+    again = _corpus.outcome(lambda: t.render(**dd))
+    if dd != _corpus.DATA[d]:
+        return {"render data changed by the render": repr(dd)[:200]}
+    other = _corpus.template(_CENV, (w2 + 1) % _corpus.NW2, (w1 + 5) % _corpus.NW1, (leaf + 7) % _corpus.NLEAF)
+    if other is not None:
+        _corpus.outcome(lambda: other.render(**dd))
+    third = _corpus.outcome(lambda: t.render(**dd))
+    fresh = _CENV.from_string(_corpus.source(w2, w1, leaf))
+    parsed_again = _corpus.outcome(lambda: fresh.render(**_corpus.data(d)))
+    if not (first == again == third == parsed_again) or dd != _corpus.DATA[d]:
+        return {"first": first, "again": again, "after another template": third, "parsed again": parsed_again}
+    return None
+
+
+c17_corpus, _det = _corpus.mk_condition("c17_corpus", _corpus_check)
+DETAIL["c17_corpus"] = _det
+CONDITIONS.append({"fn": "c17_corpus", "quick": 90, "thorough": 200, "sel_only": True, "bounds": _corpus.BOUNDS})
+
 ASSUMPTIONS = [
     "H1: template sources are concrete skeletons; the numbers in the data (0..9, 0..2 where a filter passes them to Decimal/json), the list length 0..3 and a string (<= 2 chars over 'ab ,') are symbolic; the data shapes are a flat list, a nested list, a dict with list/dict values and a list of dicts",
     "H1 carry: 'fresh' = the same source parsed inside the condition by a second environment with its own loader",
